@@ -243,7 +243,8 @@ func builds() []Op {
 		b("dry:top", buildOpts{Target: tTop, Dry: true}),
 		b("dry:mid", buildOpts{Target: tMid, Dry: true}),
 		b("session:build:top,+pkg:other,reload,build:other", buildOpts{Target: tTop, Then: tOther, Session: &Vars{}}),
-		b("session:build:top(mid's body fails),cause repaired,build:top", buildOpts{Target: tTop, RetryAfter: "mid"}),
+		b("session:build:top(mid's body fails; repaired; build:top)", buildOpts{Target: tTop, RetryAfter: "mid"}),
+		b("session:build:top(leaf's body fails; repaired; build:top)", buildOpts{Target: tTop, RetryAfter: "leaf"}),
 		b("build:top+gc(one load)", buildOpts{Target: tTop, GCAfterRun: true}),
 		b("build:leaf+gc(one load)", buildOpts{Target: tLeaf, GCAfterRun: true}),
 		b("gc:full", buildOpts{GC: true}),
@@ -276,7 +277,7 @@ func focused(prop string, thorough bool) []focus {
 			// a build started from a subdirectory that holds files named like the declared outputs
 			{[]string{"delete:gen/g.txt", "edit:src/a.txt", "build:top(process started in misc/)", "build:mid"}, 4 + d},
 			// one loaded Project: a body fails, the cause (not an input) is repaired, the build is repeated
-			{[]string{"global:G", "edit:dir/x.txt", "session:build:top(mid's body fails),cause repaired,build:top", "build:top"}, 4 + d},
+			{[]string{"default:leaf.d", "edit:dir/x.txt", "session:build:top(mid's body fails; repaired; build:top)", "session:build:top(leaf's body fails; repaired; build:top)", "build:top"}, 4 + d},
 			// builds interrupted by the death of the process inside a body
 			{[]string{"delete:gen/g.txt", "edit:src/a.txt", "code:helper", "interrupt:build:gen(dies between gen's two outputs)", "interrupt:build:mid(dies in mid's body)", "build:mid", "build:top"}, 5 + d},
 			// edits between values that compare equal but can be told apart by the function
